@@ -747,9 +747,10 @@ func (loc *Location) ListRules(ctx *Context, includeInherited bool) ([]string, e
 	Inc(&loc.stats.ListRules, 1)
 
 	sr, err := loc.SearchFacts(ctx, Map{"rule": "?rule"}, includeInherited)
+	searchErr := err
 
-	acc := make([]string, 0, len(sr.Found))
-	if err == nil {
+	acc := make([]string, 0, 0)
+	if err == nil && sr != nil {
 		for _, srs := range sr.Found {
 			// ToDo: Be more careful
 			rule, _ := srs.Bindingss[0]["?rule"]
@@ -769,6 +770,11 @@ func (loc *Location) ListRules(ctx *Context, includeInherited bool) ([]string, e
 
 	loc.stats.IncErrors(err)
 	Inc(&loc.stats.TotalTime, timer.Stop())
+	if searchErr != nil {
+		// A failed search (say a loop in the parents, a disabled
+		// or protected ancestor) is not an empty or partial list.
+		return nil, searchErr
+	}
 	return acc, nil
 }
 
